@@ -531,8 +531,10 @@ def tryEnc (can : Str → Bool) (stream : Bool) (attempted : List Str) (enc : St
   if attempted.contains enc then (false, attempted)
   else (if stream then true else can enc, enc :: attempted)
 
-/-- the `for element in encs` loop; returns the outcome or the attempted set to go on with -/
-def csLoop (can : Str → Bool) (stream : Bool) : List Elem → List Str → Sum CsResult (List Str)
+/-- the `for element in encs` loop; returns the outcome or the attempted set to go on with.
+    `dflListed`: the default charset has an entry of its own in the field — a `*` element is then
+    skipped (`continue`), the explicit entry is honoured at its own rank -/
+def csLoop (can : Str → Bool) (stream : Bool) (dflListed : Bool) : List Elem → List Str → Sum CsResult (List Str)
   | [], att => .inr att
   | e :: es, att =>
     match e.q with
@@ -540,10 +542,12 @@ def csLoop (can : Str → Bool) (stream : Bool) : List Elem → List Str → Sum
     | .exotic => .inl .exotic
     | q =>
       if q.isPos then
-        let name := if e.value = sStar then sUtf8 else e.value
-        let r := tryEnc can stream att name
-        if r.1 then .inl (.chosen name) else csLoop can stream es r.2
-      else csLoop can stream es att
+        if e.value = sStar ∧ dflListed = true then csLoop can stream dflListed es att
+        else
+          let name := if e.value = sStar then sUtf8 else e.value
+          let r := tryEnc can stream att name
+          if r.1 then .inl (.chosen name) else csLoop can stream dflListed es r.2
+      else csLoop can stream dflListed es att
 
 def findAcceptableCharset (can : Str → Bool) (stream : Bool) (forced : Option Str)
     (acceptCharset : Option Str) : CsResult :=
@@ -562,7 +566,7 @@ def findAcceptableCharset (can : Str → Bool) (stream : Bool) (forced : Option 
       if encs = [] then
         if (tryEnc can stream [] sUtf8).1 then .chosen sUtf8 else .err500
       else
-        match csLoop can stream encs [] with
+        match csLoop can stream (charsets.contains (lower sUtf8)) encs [] with
         | .inl r => r
         | .inr att =>
           if ¬ charsets.contains sStar ∧ ¬ charsets.contains sIso then
@@ -604,9 +608,17 @@ structure Codec where
   enc : Str → Str → Option Gzip.Bytes
   /-- `bytes.decode(name)` -/
   dec : Str → Gzip.Bytes → Option Str
+  /-- ONE incremental encoder (`codecs.getincrementalencoder(name)`) run over the str chunks of a body,
+      the flush after the last chunk included: the bytes per chunk; `none` = LookupError / UnicodeError -/
+  inc : Str → List Str → Option (List Gzip.Bytes)
 
-/-- `encode_string`: every str chunk on its own, all or nothing -/
+/-- `encode_string` (fix C17-incremental-encoder): the chunks are pieces of one text, encoded by one
+    incremental encoder, all or nothing -/
 def encodeString (k : Codec) (name : Str) (chunks : List Str) : Option (List Gzip.Bytes) :=
+  k.inc name chunks
+
+/-- `encode_string` as it was BEFORE the fix (finding F18c): every str chunk on its own -/
+def encodeStringPerChunk (k : Codec) (name : Str) (chunks : List Str) : Option (List Gzip.Bytes) :=
   chunks.mapM (k.enc name)
 
 /-- the abstract `can` of a body under a codec -/
